@@ -45,7 +45,7 @@ def tlc_phase(ctx):
 
     def one(job):
         c, kw = job
-        r = L.tlc_cached(ctx, "Layout", c, workers=w, timeout=3000, heap="2g" if ctx.quick else "4g", **kw)
+        r = L.tlc_cached(ctx, "Layout", c, workers=w, timeout=7200, heap="2g" if ctx.quick else "4g", **kw)
         if not r.ok:
             raise vlib.MachineryError("model %s rejected / generator failed (rc=%s):\n%s" % (c, r.rc, r.out[-4000:]))
         return c, r
@@ -83,7 +83,7 @@ def emit_cases(ctx, res):
     inp = ctx.path("layout_in.ndjson")
     with open(inp, "w") as f:
         f.write("\n".join(terms) + "\n")
-    e = L.tlc_cached(ctx, "Layout", "MC_Layout_eval.cfg", workers=12, env={"LAYOUT_IN": inp}, timeout=3000)
+    e = L.tlc_cached(ctx, "Layout", "MC_Layout_eval.cfg", workers=12, env={"LAYOUT_IN": inp}, timeout=7200)
     if not e.ok:
         raise vlib.MachineryError("evaluation run rejected:\n%s" % e.out[-3000:])
     ev = [json.loads(v) for v in e.vcases]
